@@ -26,6 +26,7 @@ const (
 	sTry
 	sWith
 	sCall
+	sPad // id comment-only lines: no effect, but the next statement is that much further down
 )
 
 type handler struct {
@@ -111,6 +112,10 @@ func (r *c02r) block(ind int, ss []*stmt) {
 
 func (r *c02r) stmt(ind int, s *stmt) {
 	switch s.k {
+	case sPad:
+		for i := 0; i < s.id; i++ {
+			r.emit(ind, "#")
+		}
 	case sLog:
 		r.nid++
 		s.id = r.nid
@@ -291,6 +296,8 @@ func (m *c02m) block(ss []*stmt, fn string) compl {
 func (m *c02m) exec(s *stmt, fn string) compl {
 	m.steps++
 	switch s.k {
+	case sPad:
+		return compl{}
 	case sLog:
 		m.log = append(m.log, itoa(s.id))
 		return compl{}
@@ -673,6 +680,37 @@ func c02Run(rc *core.RunCtx) {
 			{5, 3, []string{"KeyError"}, hsIter, false, false, true},
 		}
 	}
+	// line gaps: the line table encodes line increments in bytes, so a statement 255, 256, 510,
+	// 511, 765 ... lines below the previous one needs one, two, three ... extra entries; the
+	// traceback must still name the right lines (of the raising statement and of every call)
+	rc.Part = "linegaps"
+	for _, P := range []int{1, 254, 255, 256, 257, 509, 510, 511, 512, 764, 765, 766, 1019, 1020, 1021, 2041} {
+		pad := func() *stmt { return &stmt{k: sPad, id: P} }
+		raise := func() *stmt { return &stmt{k: sRaise, exc: "KeyError"} }
+		lg := func() *stmt { return &stmt{k: sLog} }
+		shapes := [][]*stmt{
+			{pad(), raise()},
+			{lg(), pad(), raise()},
+			{lg(), pad(), lg(), pad(), raise()},
+			{{k: sCall, body: []*stmt{pad(), raise()}}},
+			{pad(), {k: sCall, body: []*stmt{lg(), pad(), raise()}}},
+			{{k: sTry, body: []*stmt{pad(), raise()}, hasFin: true, fin: []*stmt{pad(), lg()}}},
+			{{k: sTry, body: []*stmt{raise()}, hs: []handler{{classes: []string{"KeyError"}, body: []*stmt{pad(), {k: sRaise, exc: "ZeroDivisionError"}}}}}},
+			{{k: sWith, mode: "false", body: []*stmt{pad(), raise()}}},
+			{{k: sFor, body: []*stmt{pad(), lg()}}, pad(), raise()},
+		}
+		for si, sh := range shapes {
+			for _, gap := range []int{0, P} {
+				if rc.Expired() || rc.Done() {
+					return
+				}
+				if !rc.Take() {
+					continue
+				}
+				c02OneGap(c, cloneStmts(sh), 100+si, 90, gap)
+			}
+		}
+	}
 	for pi, pl := range plans {
 		rc.Part = fmt.Sprintf("plan%d", pi)
 		g := &c02gen{rc: rc, maxDepth: pl.depth, excs: pl.excs, hspecs: pl.hspecs, withCall: pl.call, moreModes: pi == 0}
@@ -696,11 +734,17 @@ func c02Run(rc *core.RunCtx) {
 	}
 }
 
-func c02One(c *c01, body []*stmt, used int, plan int) {
+func c02One(c *c01, body []*stmt, used int, plan int) { c02OneGap(c, body, used, plan, 0) }
+
+// c02OneGap: gap comment-only lines between the definition and the call
+func c02OneGap(c *c01, body []*stmt, used int, plan int, gap int) {
 	rc := c.rc
 	r := &c02r{}
 	r.emit(0, "def f():")
 	r.block(1, body)
+	for i := 0; i < gap; i++ {
+		r.emit(0, "#")
+	}
 	callLine := r.emit(0, "r = f()")
 	src := r.b.String()
 	fields := core.Fields{"plan": itoa(plan), "size": itoa(used), "src": src}
@@ -846,7 +890,7 @@ func init() {
 		ID:    "C02",
 		Level: "model_checking",
 		Rule: "every statement tree within a node budget (quick 4-5, thorough 5-7) and nesting depth 2-3 over {log, raise E, bare raise, return, break, continue, if/else, for/while (2 iterations) with else, try with 8 handler layouts (class, tuple of classes, bare, `as`, two ordered handlers) x else x finally, with (3 __exit__ behaviours), nested function call}, " +
-			"blocks of 1-2 statements, every leaf at every position; one statement per line. Oracle: a structural operational semantics giving the path log (incl. __enter__/__exit__), the compile-time rejection (break/continue outside loop, continue in finally), the uncaught exception type, the returned value and the traceback (function, line) of the raising statement and of every active call. Non-trivial: the expected log is non-empty or the program must be rejected.",
+			"blocks of 1-2 statements, every leaf at every position; one statement per line. Oracle: a structural operational semantics giving the path log (incl. __enter__/__exit__), the compile-time rejection (break/continue outside loop, continue in finally), the uncaught exception type, the returned value and the traceback (function, line) of the raising statement and of every active call. Part linegaps: 9 shapes (raise at the start of a function, after a log, after two gaps, in a nested call, in try/finally, in a handler, in a with block, after a loop) with runs of P comment-only lines before the statements and between the definition and the call, P in {1, 254..257, 509..512, 764..766, 1019..1021, 2041}: same oracle, in particular the traceback lines. Non-trivial: the expected log is non-empty or the program must be rejected.",
 		Run:         c02Run,
 		Assumptions: []string{"tracebacks: an extra entry at a bare `raise` line is accepted (3.4 adds it, later versions do not)", "user-defined exception classes are not in the alphabet"},
 		Explanation: "exhaustive enumeration of bounded statement trees executed on the real pipeline and compared with a reference operational semantics (path trace, exception, traceback)",
